@@ -118,8 +118,6 @@ def comment_of(k):
     return k.get_comment_bytes() if k.has_comment() else None
 
 
-VALUE_ERRS = ('KeyImportError', 'KeyEncryptionError', 'KeyExportError',
-              'ValueError')
 
 
 def main(ctx):
@@ -245,7 +243,7 @@ def main(ctx):
                     ctx.violation(kf_sig('priv', step='passphrase', **case),
                                   f'encrypted key imported with '
                                   f'{row["ipass"]} passphrase: {case}', rp)
-                elif o['import'] not in VALUE_ERRS:
+                elif not isinstance(o.get('import_exc'), ValueError):
                     ctx.divergence(f'priv: {row["ipass"]} passphrase refused '
                                    f'with {o["import"]}: {case}')
         else:
@@ -306,6 +304,28 @@ def main(ctx):
                               f'{case}', rp)
     ctx.sample({'part': 'pub', 'rows': len(rows['pub']),
                 'comment_classes': cmt_classes})
+
+    # observation (outside the specified comment space, never a verdict): a
+    # comment with a line break survives the binary OpenSSH private format
+    # and is written verbatim into the one-line public format
+    if only.rp is None:
+        import asyncssh
+        k0 = D.copy_with_comment(D.key(kts[-1]), b'x')
+        inj = D.key(kts[-1], 3).convert_to_public() \
+            .export_public_key('openssh').strip()
+        k0.set_comment(b'first line\n' + inj + b' injected')
+        try:
+            k1 = asyncssh.import_private_key(k0.export_private_key('openssh'))
+            data = k1.export_public_key('openssh')
+            n = len(asyncssh.public_key._decode_public_list(data))
+            if n != 1:
+                ctx.notes.append(
+                    f'observation: a comment containing a line break is '
+                    f'written verbatim by export_public_key("openssh"); the '
+                    f'output then holds {n} key lines (the second one chosen '
+                    f'by whoever chose the comment)')
+        except Exception as exc:            # pylint: disable=broad-except
+            ctx.notes.append(f'observation: newline comment probe: {exc!r}')
 
     # ---- 2c. scanner ----------------------------------------------------------
     scr = D.Scratch(tlc.WORK, 'c15_files_')
